@@ -30,6 +30,7 @@ def check(args):
     ap.add_argument("--prop", default="C19,C14,C15")
     ap.add_argument("--runs", type=int, default=200)
     ap.add_argument("--seed", type=int, default=int(os.environ.get("VERIF_SEED", "0") or 0))
+    ap.add_argument("--only", default="")
     a = ap.parse_args(sys.argv[1:])
     if a.sub == "digests":
         core.reexec_pinned()
